@@ -349,6 +349,20 @@ def c12_f(ctx):
                         member = m['x'] if m['k'] == key else m['k']
             if not perms:
                 continue
+            # the rows that are rewritten are the rows the distances were recomputed for
+            for n in ast.walk(lo):
+                if isinstance(n, ast.Assign) and isinstance(n.targets[0], ast.Subscript):
+                    tt = ex.term(n.targets[0])
+                    if tt[1] == buf:
+                        sel = [s for s in subterms(perms[0][1])
+                               if s[0] == 'sub' and s[2][0] == 'slice' and
+                               contains(s[1], C01.SAMPLES + '[_]')]
+                        okr = bool(sel) and all(s[2] == tt[2] for s in sel)
+                        ctx.check(okr, f, 'rewritten rows = recomputed rows',
+                                  'target slice equals the slice the distances were recomputed on',
+                                  'the permutation computed on rows {} is written to rows {}'
+                                  .format(show(sel[0][2]) if sel else '?', show(tt[2])), fn=f,
+                                  node=n)
             P = perms[0][1]
             mm = match(P, pattern('np.argsort(_k)'))
             ok = mm is not None and contains(mm['k'], '_.generate(with_values=_)')
